@@ -57,7 +57,7 @@ theorem splitAux_ne_nil (body : List Char) : ∀ t, splitAux t body ≠ [] := by
     intro t; simp only [splitAux]
     by_cases hc : (c == ':') = true
     · simp [hc]
-    · simp only [hc, if_false]; exact ih _
+    · simp only [hc]; exact ih _
 
 /-- every segment converted by `optInt?` -/
 def optInts : List (List Char) → Option (List (Option Int))
@@ -107,7 +107,7 @@ theorem sliceOfBody_eq (body : List Char) :
   rw [hb, splitColon_eq_aux]
   by_cases hbad : body.any badBody = true
   · simp [hbad]
-  · simp only [hbad, if_false]
+  · simp only [hbad]
     have hne := splitAux_ne_nil body []
     generalize splitAux [] body = segs at hne ⊢
     match segs, hne with
@@ -210,8 +210,8 @@ theorem run_body (body : List Char) : ∀ (s : PS) (rest : List Char), inSlice s
     by_cases h0 : (is0 s.st && s.token == []) = true
     · simp only [h0, if_true]
       cases optInt? s.token <;> simp
-    · simp only [h0, if_false]
-      cases optInt? s.token <;> simp [h0]
+    · simp only [h0]
+      cases optInt? s.token <;> simp
   | cons c body ih =>
     intro s rest hs hb
     have hb' : ∀ c ∈ body, c ≠ ']' ∧ isWs c = false := fun c hc => hb c (by simp [hc])
@@ -230,7 +230,7 @@ theorem run_body (body : List Char) : ∀ (s : PS) (rest : List Char), inSlice s
         simp only [is0_toX, Bool.false_and, Bool.false_eq_true, if_false, toStop_toX hs]
         by_cases hbad : body.any badBody = true
         · simp [hbad]
-        · simp only [hbad, if_false]
+        · simp only [hbad]
           cases optInts (splitAux [] body) <;> simp
     · by_cases hbad : badBody c = true
       · rw [step_bad s c hs hbad hc1]
@@ -243,7 +243,7 @@ theorem run_body (body : List Char) : ∀ (s : PS) (rest : List Char), inSlice s
         simp only [List.any_cons, hbad, Bool.false_or, splitAux, e1, Bool.false_eq_true, if_false]
         by_cases hbad' : body.any badBody = true
         · simp [hbad']
-        · simp only [hbad', if_false]
+        · simp only [hbad']
           cases optInts (splitAux (s.token ++ [c]) body) <;> simp
 
 /-- input that ends inside a slice is rejected -/
